@@ -27,6 +27,7 @@ Public API (used by C07, C03; C04/C16/C17 may import it):
                                 -> ((sld_re, sld_im, sld_inc), (coh, abs, inc), penetration)   [floats]
     m.reference_with_floors(...) -> (seven values, seven absolute floors)   see docstring
     compare7(got7, ref7, floors7, rel=1e-10) -> list of (index, name, got, want, relerr) that disagree
+    ArgumentGuard.install(nsf)  input-immutability monitor for the wavelength / energy arguments (C03, C04)
 """
 import bisect
 import math
@@ -383,3 +384,95 @@ def compare7(got, ref, floors, rel=1e-10):
         else:
             bad.append((i, NAMES[i], g, r, relerr))
     return bad, worst, floor_only
+
+
+# ---------------------------------------------------------------------- input-immutability monitor
+class ArgumentGuard(object):
+    """In-process monitor: the mutable wavelength / energy arguments (numpy arrays, lists) of the neutron
+    calculators must come back from the call exactly as they went in.
+
+    Hand-written wrappers (named functions, rebinding module / class attributes so that internal calls are
+    seen too) around nsf.neutron_scattering, nsf.neutron_sld, Neutron.scattering, Neutron.sld and
+    Neutron.scattering_by_wavelength.  Before the call every ndarray / list passed as `wavelength` or `energy`
+    is copied; after the call the caller's object must still have the same type, shape, dtype and contents.
+    Failures are queued in `.failures` (the owner turns them into violations), evaluations are counted in
+    `.evaluations` / `.by_function`.  Independent of NeutronModel; used by C03 and C04."""
+
+    NAMES = ('wavelength', 'energy')
+
+    def __init__(self):
+        self.evaluations = 0
+        self.by_function = {}
+        self.failures = []
+
+    @staticmethod
+    def snapshot(value):
+        import numpy as np
+        if isinstance(value, np.ndarray):
+            return ('ndarray', value.shape, value.dtype.str, value.copy())
+        if isinstance(value, list):
+            import copy
+            return ('list', copy.deepcopy(value))
+        return None
+
+    @staticmethod
+    def unchanged(snap, value):
+        import numpy as np
+        if snap[0] == 'ndarray':
+            if not isinstance(value, np.ndarray) or value.shape != snap[1] or value.dtype.str != snap[2]:
+                return False
+            if value.dtype.kind in 'fc':
+                return bool(np.array_equal(snap[3], value, equal_nan=True))
+            return bool(np.array_equal(snap[3], value))
+        return isinstance(value, list) and repr(value) == repr(snap[1])
+
+    def guard(self, func, label, positional=None):
+        """Wrapper of *func*; *positional* maps positional index -> argument name for arguments that may be
+        given positionally."""
+        import functools
+        positional = dict(positional or {})
+        names = self.NAMES
+        snapshot, unchanged = self.snapshot, self.unchanged
+        owner = self
+
+        @functools.wraps(func)
+        def guarded_call(*args, **kw):
+            held = None
+            for name in names:
+                if name in kw:
+                    s = snapshot(kw[name])
+                    if s is not None:
+                        held = (held or []) + [(name, kw[name], s)]
+            for idx, name in positional.items():
+                if idx < len(args):
+                    s = snapshot(args[idx])
+                    if s is not None:
+                        held = (held or []) + [(name, args[idx], s)]
+            out = func(*args, **kw)
+            if held:
+                for name, value, s in held:
+                    owner.evaluations += 1
+                    owner.by_function[label] = owner.by_function.get(label, 0) + 1
+                    if not unchanged(s, value):
+                        owner.failures.append({'function': label, 'argument': name,
+                                               'before': repr(s[-1])[:300], 'after': repr(value)[:300]})
+            return out
+
+        guarded_call._pvmon_guard = self
+        return guarded_call
+
+    @classmethod
+    def install(cls, nsf):
+        """Attach the wrappers (once per process); returns the guard."""
+        existing = getattr(nsf.neutron_scattering, '_pvmon_guard', None)
+        if existing is not None:
+            return existing
+        g = cls()
+        nsf.neutron_scattering = g.guard(nsf.neutron_scattering, 'neutron_scattering')
+        nsf.neutron_sld = g.guard(nsf.neutron_sld, 'neutron_sld')
+        N = nsf.Neutron
+        N.scattering = g.guard(N.scattering, 'Neutron.scattering')
+        N.sld = g.guard(N.sld, 'Neutron.sld')
+        N.scattering_by_wavelength = g.guard(N.scattering_by_wavelength, 'Neutron.scattering_by_wavelength',
+                                             positional={1: 'wavelength'})
+        return g
